@@ -48,6 +48,12 @@ func Run(p *load.Program, r *report.Report) {
 	a.outputSide()
 }
 
+// NoDataWithoutCheck evaluates rule (c) only: no data is delivered together with, or after, an error of its parser.
+func NoDataWithoutCheck(p *load.Program, r *report.Report) {
+	a := &A{P: p, R: r, funcs: p.SrcFuncs()}
+	a.noDataWithoutCheck()
+}
+
 // InputGate evaluates the input-side rules only (where sections and their CRC_32 end, the gate itself).
 func InputGate(p *load.Program, r *report.Report) {
 	a := &A{P: p, R: r, funcs: p.SrcFuncs()}
